@@ -104,6 +104,26 @@ def oracle(case, rec):
         hs = [float(pr[k, 1]) for k in ks]
         rec.check(all(a >= b for a, b in zip(hs, hs[1:])), label + ':heights-increase', list(zip(ks, hs)))
 
+    def map_back(arr, lst, where):
+        """Map reduced-space knees to the original curve with the simplifier's own table (the demos map
+        after several stages and for several detectors with one and the same table)."""
+        final = rec.call(bound, L.rdp.mapping, arr, reduced, removed, _site='rdp.mapping')
+        if final is FAILED:
+            return None
+        fl = ints(final, 'stage:mapping')
+        if fl is None:
+            return None
+        ok = rec.check(len(fl) == len(lst), 'mapping:length', (where, fl, lst))
+        ok = ok and rec.check(all(a < b for a, b in zip(fl, fl[1:])), 'mapping:not-strictly-increasing', (where, fl))
+        ok = ok and rec.check(set(fl) <= set(r), 'mapping:index-not-a-retained-point', '%s: mapped %r retained %r' % (where, fl, r))
+        if ok:
+            same = all(0 <= o < n and p[o, 0] == pr[k, 0] and p[o, 1] == pr[k, 1] for o, k in zip(fl, lst))
+            rec.check(same, 'mapping:coordinates-differ-from-reduced-space-knee',
+                      '%s: mapped %r knees %r reduced %r removed %r' % (where, fl, lst, r, np.asarray(removed).tolist()))
+        return fl if ok else None
+
+    if len(k0) and k0[0] >= 0:
+        map_back(np.asarray(knees), k0, 'detector output')
     stages = [('worst', lambda ks: pp.filter_worst_knees(pr, ks)),
               ('corner', lambda ks: pp.filter_corner_knees(pr, ks, case['corner_t'])),
               ('cluster', lambda ks: pp.filter_clusters(pr, ks, getattr(L.clustering, case['linkage']), case['cluster_t'],
@@ -121,19 +141,9 @@ def oracle(case, rec):
             return
         heights_ok(nl, 'stage:' + name)
         cur, cur_l = np.asarray(nxt), nl
-    final = rec.call(bound, L.rdp.mapping, cur, reduced, removed, _site='rdp.mapping')
-    if final is FAILED:
-        return
-    fl = ints(final, 'stage:mapping')
+    fl = map_back(cur, cur_l, 'final')
     if fl is None:
         return
-    ok = rec.check(len(fl) == len(cur_l), 'mapping:length', (fl, cur_l))
-    ok = ok and rec.check(all(a < b for a, b in zip(fl, fl[1:])), 'mapping:not-strictly-increasing', fl)
-    ok = ok and rec.check(set(fl) <= set(r), 'mapping:index-not-a-retained-point', 'mapped %r retained %r' % (fl, r))
-    if ok:
-        same = all(0 <= o < n and p[o, 0] == pr[k, 0] and p[o, 1] == pr[k, 1] for o, k in zip(fl, cur_l))
-        rec.check(same, 'mapping:coordinates-differ-from-reduced-space-knee',
-                  'mapped %r knees %r reduced %r removed %r' % (fl, cur_l, r, removed.tolist()))
     rec.nontrivial = len(fl) >= 2 and any(r[k] > k for k in cur_l)
     rec.tag('survivors:%s' % (len(fl) if len(fl) < 3 else '3+'))
 
